@@ -154,6 +154,12 @@ func (e *Engine) bind(ld *Loaded) error {
 			for _, cl := range c.Assumes {
 				bindCl(cl)
 			}
+			for _, cl := range c.Cases {
+				bindCl(cl)
+			}
+			for _, cl := range c.Expects {
+				bindCl(cl)
+			}
 			for _, cl := range c.OnStore {
 				bindCl(cl)
 			}
